@@ -112,6 +112,7 @@ void hk_wait4(pid_t arg, int options, pid_t ret, int status)
 	(void)arg; (void)options;
 	if (ret <= 0)
 		return;
+	fork_window_delay();	/* the reaping pass is held up between two children now and then (it holds the library's lock) */
 	i = atomic_fetch_add(&ng, 1);
 	if (i < MAXG) {
 		G[i].pid = ret;
